@@ -343,8 +343,24 @@ pub fn observe(rt: &tokio::runtime::Runtime, reader: &dyn TilesReaderTrait, src:
 	(opened, json!(lookups), json!(absent), json!(streams), json!(expect))
 }
 
+fn thread_count() -> usize {
+	std::fs::read_to_string("/proc/self/status")
+		.ok()
+		.and_then(|s| s.lines().find(|l| l.starts_with("Threads:")).and_then(|l| l.split_whitespace().nth(1).and_then(|v| v.parse().ok())))
+		.unwrap_or(0)
+}
+
 pub fn run_case(rt: &tokio::runtime::Runtime, dir: &Path, case: &Value, n: usize, only: &str, rng: &mut Rng) -> Value {
 	let src = source_of(case);
+	if src.fmt == "mbtiles" {
+		// every r2d2 pool (one per MBTiles reader/writer) owns helper threads that terminate lazily after the
+		// pool is dropped: wait for them so that thousands of cases do not exhaust the thread limit
+		let mut spins = 0;
+		while thread_count() > 4000 && spins < 200 {
+			std::thread::sleep(Duration::from_millis(5));
+			spins += 1;
+		}
+	}
 	let path = file_path(dir, &src.fmt, "case");
 	let (write_ok, write_err) = produce(rt, case, &src, &path);
 	let mut ev = json!({"ev":"case","id":n,"origin":case["origin"].as_str().unwrap_or("writer"),"fmt":src.fmt,"tf":src.tf,"tc":src.tc,
@@ -352,23 +368,24 @@ pub fn run_case(rt: &tokio::runtime::Runtime, dir: &Path, case: &Value, n: usize
 	let want_decode = only == "C01" || only == "all";
 	ev["decoded"] = if write_ok && want_decode { decode_file(&src, &path) } else { json!({"skip":1,"ok":0,"tiles":[],"tf":"","tc":"","layout":{}}) };
 	let mut opened = json!({"ok":0,"tf":"","tc":"","cov":[],"err":""});
+	let mut walk = 0;
 	let (mut lookups, mut absent, mut streams, mut expect) = (json!([]), json!([]), json!([]), json!([]));
 	if write_ok {
 		let p = path.to_str().unwrap().to_string();
 		match catch(|| rt.block_on(get_reader(&p))) {
 			Ok(Ok(reader)) => {
 				let many = only == "C02" || only == "all";
-				let boxes = if only == "C03" { vec![] } else if only == "C01" || only == "C16" {
-					// C01/C16 still stream every present level once (no additional tiles, stream path agrees)
-					src.tiles.iter().map(|t| t.0).collect::<BTreeSet<_>>().into_iter().map(|z| {
-						if z <= 4 {
-							return TileBBox::new_full(z).unwrap();
-						}
-						let ts: Vec<_> = src.tiles.iter().filter(|t| t.0 == z).collect();
-						let max = ((1u64 << z) - 1) as u32;
-						crate::c15::raw_box(z, ts.iter().map(|t| t.1).min().unwrap().saturating_sub(1), ts.iter().map(|t| t.2).min().unwrap().saturating_sub(1),
-							(ts.iter().map(|t| t.1).max().unwrap() + 1).min(max), (ts.iter().map(|t| t.2).max().unwrap() + 1).min(max))
-					}).collect()
+				let boxes = if only == "C03" {
+					vec![]
+				} else if only == "C01" || only == "C16" {
+					// read the container back the way a conversion does: walk the ADVERTISED coverage, level by level
+					let cov: Vec<TileBBox> = reader.get_parameters().bbox_pyramid.iter_levels().cloned().collect();
+					if cov.iter().all(|b| b.count_tiles() <= 400_000) {
+						walk = 1;
+						cov
+					} else {
+						vec![]
+					}
 				} else {
 					boxes_for(&src, rng, many)
 				};
@@ -388,6 +405,7 @@ pub fn run_case(rt: &tokio::runtime::Runtime, dir: &Path, case: &Value, n: usize
 	ev["absent"] = absent;
 	ev["streams"] = streams;
 	ev["expect"] = expect;
+	ev["walk"] = json!(walk);
 	remove_path(&path);
 	ev
 }
@@ -428,12 +446,58 @@ fn n_workers() -> usize {
 	std::env::var("VERIF_WORKERS").ok().and_then(|s| s.parse().ok()).unwrap_or(10)
 }
 
-/// replay TLC-enumerated cases
+/// replay TLC-enumerated cases. MBTiles readers/writers leave helper threads behind (r2d2), so long case lists are
+/// processed in child processes of at most 250 MBTiles cases each.
 pub fn replay(input: &str, output: &str, dir: &str, only: &str) -> Value {
 	let cases = read_ndjson(input);
 	let mut out = Out::create(output);
-	for e in run_parallel(&cases, dir, only, n_workers()) {
-		out.emit(&e);
+	let n_mb = cases.iter().filter(|c| c["fmt"] == "mbtiles").count();
+	if n_mb > 250 && std::env::var("VERIF_NO_SPLIT").is_err() {
+		let exe = std::env::current_exe().unwrap();
+		std::fs::create_dir_all(dir).unwrap();
+		let mut start = 0;
+		let mut part = 0;
+		while start < cases.len() {
+			let mut end = start;
+			let mut mb = 0;
+			while end < cases.len() && end - start < 6000 && mb < 250 {
+				if cases[end]["fmt"] == "mbtiles" {
+					mb += 1;
+				}
+				end += 1;
+			}
+			let pin = Path::new(dir).join(format!("part{part}.in.ndjson"));
+			let pout = Path::new(dir).join(format!("part{part}.out.ndjson"));
+			{
+				let mut o = Out::create(pin.to_str().unwrap());
+				for c in &cases[start..end] {
+					o.emit(c);
+				}
+				o.finish();
+			}
+			let st = std::process::Command::new(&exe)
+				.args(["replay", "CONTAINER", pin.to_str().unwrap(), pout.to_str().unwrap(), dir, only])
+				.env("VERIF_NO_SPLIT", "1")
+				.stdout(std::process::Stdio::null())
+				.status()
+				.expect("spawn child");
+			if !st.success() {
+				eprintln!("child harness failed on cases {start}..{end}");
+				std::process::exit(3);
+			}
+			for (i, mut e) in read_ndjson(pout.to_str().unwrap()).into_iter().enumerate() {
+				e["id"] = json!(start + i);
+				out.emit(&e);
+			}
+			let _ = std::fs::remove_file(&pin);
+			let _ = std::fs::remove_file(&pout);
+			start = end;
+			part += 1;
+		}
+	} else {
+		for e in run_parallel(&cases, dir, only, n_workers()) {
+			out.emit(&e);
+		}
 	}
 	let lines = out.finish();
 	json!({"cases": cases.len(), "events": lines})
